@@ -95,7 +95,7 @@ def _one(args):
              "machine": {"tree_nodes": 0, "tree_nodes_explained": 0, "divergences": [], "census": {}, "mc_states": 0, "mc_census": {},
                          "behaviours_replayed": 0, "behaviour_mismatches": [], "bisimilar": False, "liveness_checked": False}}
     M_ = stats["machine"]
-    budget = dict(max_nodes=600, max_seconds=6) if tier == "quick" else dict(max_nodes=15000, max_seconds=120)
+    budget = dict(max_nodes=600, max_seconds=6) if tier == "quick" else dict(max_nodes=8000, max_seconds=120)
     text = m.text()
     try:
         obj = g.Molecule(text)
@@ -132,7 +132,7 @@ def _one(args):
         out.append(("C18:equal-scripts-different-decisions", f"{text}: the same scripted generator met different decisions at tree node {nd['node']}", {"instance": text}))
     # ---- step level: the tree against the machine of the specification (code -> spec) ----
     if gc is not None:
-        mres = A.validate_machine(gc, tree, tag="agm18")
+        mres = A.validate_machine(gc, tree, tag="agm18", timeout=900 if tier == "quick" else 3600)
         if mres.error:
             stats["machinery"] = f"TLC failed on the atom-graph machine trace of {m.name}\n" + mres.tail
             return out, stats
@@ -151,7 +151,7 @@ def _one(args):
         # ---- design level: the machine on this graph, every option, target grid, liveness ----
         grid = [300000, 700000] if tier == "quick" else [300000, 700000, 1500000]
         tg = [list(grid) for _ in gc["keys"]]
-        mc = A.model_check_graph(gc, tg, tag="agmc18", timeout=120 if tier == "quick" else 900)
+        mc = A.model_check_graph(gc, tg, tag="agmc18", timeout=300 if tier == "quick" else 1800)
         if mc["ok"]:
             M_["mc_states"] = mc["distinct"]
             M_["mc_census"] = mc["coverage"]
@@ -167,13 +167,13 @@ def _one(args):
         else:
             M_["divergences"].append("model checking of the machine did not finish: " + mc["tail"][-200:].replace("\n", " "))
         # ---- spec -> code: behaviours generated by TLC stepped through the real code ----
-        behs, r = A.export_behaviours(gc, tg, tag="agmch18", timeout=90 if tier == "quick" else 600)
+        behs, r = A.export_behaviours(gc, tg, tag="agmch18", timeout=120 if tier == "quick" else 400)
         if not r.ok and not behs:
             behs, r = A.export_behaviours(gc, tg, tag="agmch18s", timeout=120, simulate=(40, 300))
         if tier == "thorough":
-            deep, r2 = A.export_behaviours(gc, [[3000000, 8000000] for _ in gc["keys"]], tag="agmch18d", timeout=600, simulate=(60, 800))
+            deep, r2 = A.export_behaviours(gc, [[3000000, 8000000] for _ in gc["keys"]], tag="agmch18d", timeout=900, simulate=(60, 800))
             behs = behs + deep
-        cap = 150 if tier == "quick" else 3000
+        cap = 150 if tier == "quick" else 1500
         if len(behs) > cap:
             step = len(behs) / cap
             behs = [behs[int(i * step)] for i in range(cap)]
@@ -219,7 +219,7 @@ def _one(args):
     mols = [o for o in obs if o["kind"] == "mol"]
     if not mols:
         return out, stats
-    r = validate(m, mols)
+    r = validate(m, mols, timeout=900 if tier == "quick" else 3600)
     if not r.ok:
         stats["machinery"] = f"TLC failed on the atom-graph molecules of {m.name}\n" + r.tail(20)
         return out, stats
